@@ -1,5 +1,121 @@
-import TenpyModel.Ops.MPO
+import TenpyModel.C11.Proofs
+import TenpyModel.C11.SumProofs
+/-!
+# C11 — MPO algebra equals operator algebra: property theorems
+
+`MPOM.denote` (Σ over `IdL → IdR` paths of the operator-valued matrices) is the operator an MPO stands
+for; with the matrix units as local names it *is* the dense operator (this is how the harness
+compares it with `ExactDiag.from_H_mpo`).  The theorems hold for every chain length, bond dimension,
+marker position and every commutative (semi)ring of coefficients.
+-/
 open TenpyModel.Ops
 
-/-- placeholder while the library grows -/
-theorem C11_coeff_nil {α : Type} [Add α] [Zero α] (t : OpStr) : coeff ([] : Sym α) t = 0 := rfl
+/-- **`MPO.dagger`**: conjugating every entry (name-wise `hc`, coefficient-wise the ring involution
+`cj`) denotes the Hermitian conjugate of the denoted operator — equality of the formal sums as lists. -/
+theorem C11_dagger {α : Type} [Semiring α] (hc : String → String) (cj : α →+* α) (m : MPOM α) :
+    (m.dagger hc cj).denote = Sym.dagger hc cj m.denote := by
+  unfold MPOM.denote MPOM.dagger
+  simp only
+  cases m.idL.head? with
+  | none => rfl
+  | some l =>
+    cases l with
+    | none => rfl
+    | some l =>
+      cases m.idR.getLast? with
+      | none => rfl
+      | some r =>
+        cases r with
+        | none => rfl
+        | some r => exact pathsFrom_dagger hc cj r m.layers l
+
+/-- a self-adjoint MPO stays self-adjoint under `dagger`, and `dagger` is an involution on denotations -/
+theorem C11_dagger_involutive {α : Type} [Semiring α] (hc : String → String) (cj : α →+* α)
+    (hhc : ∀ x, hc (hc x) = x) (hcj : ∀ x, cj (cj x) = x) (m : MPOM α) :
+    ((m.dagger hc cj).dagger hc cj).denote = m.denote := by
+  rw [C11_dagger, C11_dagger]
+  simp only [Sym.dagger, List.map_map]
+  conv_rhs => rw [← List.map_id m.denote]
+  apply List.map_congr_left
+  intro p _
+  obtain ⟨u, c⟩ := p
+  simp only [Function.comp, id, hcj, Prod.mk.injEq, and_true]
+  conv_rhs => rw [← List.map_id u]
+  rw [List.map_map]
+  apply List.map_congr_left
+  intro x _
+  simp [hhc]
+
+/-- **`MPO.overlap`** (`_overlap_no_hc`): the transfer-matrix contraction of two finite MPOs of the
+same length is the Frobenius inner product `tr(A† B)` of the denoted operators (`frob` = sesquilinear
+extension of the local trace form `gram`), for every chain length — induction over the sites. -/
+theorem C11_overlap {α : Type} [CommSemiring α] (gram : String → String → α) (cj : α →+* α)
+    (a b : MPOM α) (hlen : a.layers.length = b.layers.length) (la lb ra rb : Nat)
+    (hla : a.idL.head? = some (some la)) (hlb : b.idL.head? = some (some lb))
+    (hra : a.idR.getLast? = some (some ra)) (hrb : b.idR.getLast? = some (some rb)) :
+    MPOM.overlapTM gram cj a b = MPOM.frob gram cj a.denote b.denote := by
+  unfold MPOM.overlapTM MPOM.denote
+  rw [hla, hlb, hra, hrb]
+  simp only
+  have h := tmRun_spec gram cj ra rb (a.layers.zip b.layers) [((la, lb), 1)]
+  simp only [tmRun] at h
+  rw [h]
+  have h1 : (a.layers.zip b.layers).map Prod.fst = a.layers := by
+    rw [List.map_fst_zip]; omega
+  have h2 : (a.layers.zip b.layers).map Prod.snd = b.layers := by
+    rw [List.map_snd_zip]; omega
+  simp [h1, h2]
+
+/-- **`MPO.distance`** is the Frobenius distance: `<A|A> - (<A|B> + <B|A>) + <B|B>` of the
+transfer-matrix overlaps equals the same combination of Frobenius products of the denotations,
+so `is_equal` / `is_hermitian` decide `‖A − B‖_F² < eps (‖A‖² + ‖B‖²)`. -/
+theorem C11_distance {α : Type} [CommRing α] (gram : String → String → α) (cj : α →+* α)
+    (a b : MPOM α) (hlen : a.layers.length = b.layers.length) (la lb ra rb : Nat)
+    (hla : a.idL.head? = some (some la)) (hlb : b.idL.head? = some (some lb))
+    (hra : a.idR.getLast? = some (some ra)) (hrb : b.idR.getLast? = some (some rb)) :
+    MPOM.overlapTM gram cj a a - (MPOM.overlapTM gram cj a b + MPOM.overlapTM gram cj b a)
+        + MPOM.overlapTM gram cj b b
+      = MPOM.frob gram cj a.denote a.denote
+        - (MPOM.frob gram cj a.denote b.denote + MPOM.frob gram cj b.denote a.denote)
+        + MPOM.frob gram cj b.denote b.denote := by
+  rw [C11_overlap gram cj a a rfl la la ra ra hla hla hra hra,
+    C11_overlap gram cj a b hlen la lb ra rb hla hlb hra hrb,
+    C11_overlap gram cj b a hlen.symm lb la rb ra hlb hla hrb hra,
+    C11_overlap gram cj b b rfl lb lb rb rb hlb hlb hrb hrb]
+
+/-- **`MPO.__add__`**, block structure with symbolic virtual indices: gluing two automata in standard
+form at `IdL` and `IdR` (first summand: all blocks; second summand: all blocks but `IdL→IdL`,
+`IdR→IdR`) denotes the sum of the two operators — every chain length, any number of inner states.
+Standard form = nothing enters `IdL` except from `IdL`, nothing leaves `IdR` except to `IdR`, and the
+`IdL→IdL` / `IdR→IdR` entries of the two summands are the same local operator (the identity).
+The placement of the blocks on integer indices by `MPOM.add` (rows/columns dropped, `IdL = 0`,
+`IdR = -1`) is compared exactly with the implementation on every run. -/
+theorem C11_add {κ α : Type} [DecidableEq κ] [Semiring α] (lk rk : κ) (hlr : lk ≠ rk)
+    (as bs : List (List (Edge κ α))) (h : List.Forall₂ (GoodPair lk rk) as bs) (t : OpStr) :
+    coeff (pathsFrom SK.r (sumLayers lk rk as bs) SK.l) t
+      = coeff (pathsFrom rk as lk) t + coeff (pathsFrom rk bs lk) t :=
+  (sum_glued lk rk hlr as bs h).2 SK.l trivial t
+
+/-! ## non-vacuity: concrete instances run through the executable model -/
+
+section examples
+open TenpyModel.Ops.MPOM
+
+/-- a two-site MPO in standard form over the integers: `1 ⊗ Z + X ⊗ X` -/
+def exA : MPOM Int :=
+  ⟨2, [[⟨0, 0, "Id", 1⟩, ⟨0, 1, "X", 1⟩, ⟨1, 1, "Id", 1⟩],
+       [⟨0, 0, "Id", 1⟩, ⟨0, 1, "Z", 1⟩, ⟨1, 1, "Id", 1⟩]], [2, 2, 2],
+   [some 0, some 0, some 0], [some 1, some 1, some 1]⟩
+
+example : exA.denote = [(["Id", "Z"], 1), (["X", "Id"], 1)] := by decide
+
+example : (exA.dagger (fun n => if n = "X" then "Xd" else n) id).denote
+    = [(["Id", "Z"], 1), (["Xd", "Id"], 1)] := by decide
+
+/-- the glued automaton of two one-state summands has the two path sums of the summands -/
+example : pathsFrom (α := Int) SK.r (sumLayers 0 9
+      [[⟨0, 0, "Id", 1⟩, ⟨0, 9, "A", 2⟩, ⟨9, 9, "Id", 1⟩], [⟨0, 0, "Id", 1⟩, ⟨0, 9, "B", 3⟩, ⟨9, 9, "Id", 1⟩]]
+      [[⟨0, 0, "Id", 1⟩, ⟨0, 5, "C", 1⟩, ⟨9, 9, "Id", 1⟩], [⟨0, 0, "Id", 1⟩, ⟨5, 9, "D", 5⟩, ⟨9, 9, "Id", 1⟩]]) SK.l
+    = [(["Id", "B"], 3), (["A", "Id"], 2), (["C", "D"], 5)] := by decide
+
+end examples
